@@ -257,10 +257,19 @@ def write_bundle(unit, sizes, cap):
             return ("va", did)
         if k == "StringLiteral":
             return A.string_literal(n)
+        if k == "DeclRefExpr" and (n.get("referencedDecl") or {}).get("id") not in ev.env and "char" in (A.qtype(n) or "") and "[" in (A.qtype(n) or ""):
+            # a named constant (`static const char bundle_tag[8] = "#bundle"`)
+            d_ = unit.by_id.get((n.get("referencedDecl") or {}).get("id"))
+            if d_ is not None and d_.get("kind") == "VarDecl" and "const" in (A.qtype(d_) or "") and A.kids(d_) and A.string_literal(A.strip_casts(A.kids(d_)[-1])) is not None:
+                return A.string_literal(A.strip_casts(A.kids(d_)[-1]))
         if k == "ImplicitCastExpr" and n.get("castKind") == "ArrayToPointerDecay":
             inner = A.kids(n)[0]
             if A.string_literal(inner) is not None:
                 return A.string_literal(inner)
+            if A.strip_casts(inner).get("kind") == "DeclRefExpr" and "char" in (A.qtype(inner) or ""):
+                v_ = ev.ev(inner)
+                if isinstance(v_, str):
+                    return v_
             if "__va_list_tag" in (A.qtype(inner) or "") or "va_list" in (A.qtype(inner) or ""):
                 return ev.ev(inner)
         return NotImplemented
